@@ -34,6 +34,17 @@ TECHNIQUE = ("finite truth table over comparison outcomes + def-use / CFG "
 
 def run(ctx):
     prog = ctx.prog
+    from ..memo import check_no_cross_call_state
+    funcs = [prog.func(q) for q in (
+        "mokapot.utils.get_next_row", "mokapot.utils.merge_sort",
+        "mokapot.utils.csv_row_iterator",
+        "mokapot.utils.parquet_row_iterator",
+        "mokapot.streaming.MergedTabularDataReader.get_row_iterator",
+        "mokapot.streaming.MergedTabularDataReader."
+        "get_chunked_data_iterator",
+        "mokapot.streaming.MergedTabularDataReader.read")]
+    check_no_cross_call_state(ctx, "C14-no-cross-call-state", funcs,
+                              "merge")
     _get_next_row(ctx, prog.func("mokapot.utils.get_next_row"))
     _merge_sort(ctx, prog.func("mokapot.utils.merge_sort"))
     for q in ("mokapot.utils.csv_row_iterator",
@@ -41,6 +52,7 @@ def run(ctx):
         _row_iterator(ctx, prog.func(q))
     _table_merger(ctx, prog.func(
         "mokapot.streaming.MergedTabularDataReader.get_row_iterator"))
+
 
 
 # ------------------------------------------------------------------ helpers
@@ -101,9 +113,9 @@ def _eval_guard(test, env):
 def _get_next_row(ctx, f):
     prog = ctx.prog
     ps = f.params
-    ctx.require(len(ps) == 3, f"{f.qual}: expected (iterators, heads, "
+    ctx.require(len(ps) >= 3, f"{f.qual}: expected (iterators, heads, "
                 "score_column)")
-    p_iters, p_heads, p_col = ps
+    p_iters, p_heads, p_col = ps[:3]
     du = DefUse(prog, f)
     T = Terms(du, phi_vars=True)
     cfg = CFG(f.node)
